@@ -39,6 +39,10 @@ func profile() gen.Profile {
 		return gen.Request()
 	case "response":
 		return gen.Response()
+	case "security":
+		return gen.Security()
+	case "errors":
+		return gen.Errors()
 	}
 	return gen.Wide()
 }
